@@ -144,8 +144,8 @@ def pitchBendEvent (ch : Nat) (val : Rat) : Out :=
 
 def Dev.init (cfg : Config) : Dev :=
   { cfg := cfg
-    octave := wrap8 cfg.defOct
-    semitone := wrap8 cfg.defSemi
+    octave := cfg.defOct
+    semitone := cfg.defSemi
     channel := u8 (cfg.defCh - 1)
     velocity := u8 cfg.vel
     mapping := cfg.defMap
@@ -243,10 +243,10 @@ def Dev.invokePress (d : Dev) (a : Action) : Dev × List Out :=
       -- `if d.mapping != len(KeyMappings)-1 { d.mapping++ }` (Go `int`; the list is non-empty)
       (if (d.mapping : Int) ≠ (d.cfg.maps.length : Int) - 1 then { d with mapping := d.mapping + 1 } else d, [])
   | .mappingDown => (if d.mapping ≠ 0 then { d with mapping := d.mapping - 1 } else d, [])
-  | .octaveUp => ({ d with octave := wrap8 (d.octave + 1) }, [])
-  | .octaveDown => ({ d with octave := wrap8 (d.octave - 1) }, [])
-  | .semitoneUp => ({ d with semitone := wrap8 (d.semitone + 1) }, [])
-  | .semitoneDown => ({ d with semitone := wrap8 (d.semitone - 1) }, [])
+  | .octaveUp => ({ d with octave := d.octave + 1 }, [])
+  | .octaveDown => ({ d with octave := d.octave - 1 }, [])
+  | .semitoneUp => ({ d with semitone := d.semitone + 1 }, [])
+  | .semitoneDown => ({ d with semitone := d.semitone - 1 }, [])
   | .channelUp => (if d.channel ≠ 15 then { d with channel := (d.channel + 1) % 256 } else d, [])
   | .channelDown => (if d.channel ≠ 0 then { d with channel := d.channel - 1 } else d, [])
   | .learning => ({ d with learning := true }, [])
